@@ -3,6 +3,7 @@ import os
 import random
 import subprocess
 import traceback
+import urllib.parse
 
 from vf import common, gen, icl, world as W, davxml as X
 
@@ -74,6 +75,17 @@ def invalid_cases(rng, kind, thorough):
         for c in (CTRL if thorough else ["\x00", "\x01", "\x1b"]):
             lines = [("NOTE:bad" + c + "char") if l.startswith("NOTE:") else l for l in good]
             yield ("control-char", "NOTE U+%04X" % ord(c), ("\r\n".join(lines) + "\r\n").encode("utf-8"))
+        # ... and where a parser that looks at decoded text values only does not see them: structured and
+        # list-valued properties, parameter values, a second card in the same body
+        for c in (CTRL if thorough else (["\x01", "\x1b"] + rng.sample(CTRL, 1))):
+            body_lines = [l for l in good if l != "END:VCARD"]
+            spots = [("N", "N:Do" + c + "e;John;;;"), ("ORG", "ORG:Acme" + c + ";Unit"), ("CATEGORIES", "CATEGORIES:a,b" + c + "c"), ("ADR", "ADR;TYPE=HOME:;;1 Main" + c + " St;Town;;12345;NL"),
+                     ("parameter", "TEL;TYPE=\"wo" + c + "rk\":+1 555 0100")]
+            for (where_, line) in (spots if thorough else rng.sample(spots, 3)):
+                lines = [l for l in body_lines if not l.startswith(where_ + ":") and not (where_ == "N" and l.startswith("N:"))] + [line, "END:VCARD"]
+                yield ("control-char", "%s U+%04X" % (where_, ord(c)), ("\r\n".join(lines) + "\r\n").encode("utf-8"))
+            second = ["BEGIN:VCARD", "VERSION:3.0", "FN:Second" + c + "Card", "N:Card;Second;;;", "UID:c14inv-second", "END:VCARD"]
+            yield ("control-char", "second-card U+%04X" % ord(c), ("\r\n".join(good + second) + "\r\n").encode("utf-8"))
         yield ("wrong-root", "VCALENDAR as text/vcard", ("\r\n".join(gen.ical_lines(rng, "c14inv", "tok", rich=False)) + "\r\n").encode())
 
 
@@ -181,6 +193,56 @@ class Runner:
         if n1 != n2:
             self.viol(f"{where}/fixed-point/new-commit", f"re-upload of served bytes added a commit ({n1} -> {n2})")
         if self.k % 6 == 0:
+            self.req("DELETE", target)
+
+    def invalid_post(self, colpath, kind, backend, cls, detail, body):
+        """the same invalid bodies through POST add-member (RFC 5995): the server chooses the name"""
+        w, res = self.w, self.res
+        where = f"{w.fe_kind}/{backend}/{kind}"
+        ctype = self.ctype_variant(kind)
+        tag1 = self.tags(colpath)
+        s, r = self.req("POST", w.url(colpath), [("Content-Type", ctype)], body)
+        res.evaluations += 1
+        res.count("invalid_posted")
+        res.count("invalid_post:" + cls)
+        sigd = cls if cls != "control-char" else "control-char/" + detail.split(" ")[0]
+        tag2 = self.tags(colpath)
+        if not W.World.success(s.eff):
+            res.count("invalid_post_refused")
+            res.seen(kind, backend, cls, "post", "refused")
+            if tag1 != tag2:
+                self.viol(f"{where}/refused-invalid-post-moved-tag/{cls}", f"POST of invalid body ({cls} {detail}) answered {s.eff} but the sync-token moved")
+            return
+        res.seen(kind, backend, cls, "post", "accepted")
+        loc = r.header("Location")
+        consequences = []
+        target = None
+        if loc:
+            target = urllib.parse.urljoin(w.url(colpath), loc)
+            if "://" in target:
+                sp = urllib.parse.urlsplit(target)
+                target = sp.path
+            s2, r2 = self.req("GET", target)
+            try:
+                if kind == "calendar":
+                    icl.parse_calendar(r2.body)
+                else:
+                    icl.parse_vcard(r2.body)
+            except icl.ICLError as e:
+                consequences.append("stored member does not parse: %s" % e)
+        q = X.calendar_query(X.CAL_MATCH_ALL) if kind == "calendar" else X.addressbook_query(X.CARD_MATCH_ALL)
+        s4, r4 = self.w.report(colpath, q, record=False)
+        if s4.eff >= 500:
+            consequences.append("query answers %s" % s4.eff)
+        else:
+            try:
+                X.parse_multistatus(r4.body)
+            except X.MalformedXML as e:
+                consequences.append("query with data is ill-formed XML: %s" % e)
+        if cls in STATEMENT_CLASSES or consequences:
+            self.viol(f"{where}/invalid-body-accepted-by-post/{sigd}", f"POST (add-member) of invalid body ({cls}; {detail}) answered {s.eff}; consequences: {consequences or 'none observed'}",
+                      {"body": repr(body[:400]), "location": loc})
+        if target:
             self.req("DELETE", target)
 
     def invalid_case(self, colpath, kind, backend, cls, detail, body, existing=False, primed=None):
@@ -293,6 +355,8 @@ def run_shard(args):
                 continue
             for (cls, detail, body) in invalid_cases(rng, kind, args["thorough"]):
                 run.invalid_case(cp, kind, be, cls, detail, body, existing=(rng.random() < 0.3))
+                if rng.random() < 0.3:
+                    run.invalid_post(cp, kind, be, cls, detail, body)
                 if cls == "wrong-root" or rng.random() < 0.2:
                     run.invalid_case(cp, kind, be, cls, detail, body, existing=(rng.random() < 0.3), primed="other" if cls == "wrong-root" and rng.random() < 0.7 else "plain")
         res.sample({"invalid_case_requests": run.log[-4:]})
@@ -316,6 +380,7 @@ def check(tier, seed, t0):
     c = merged["counters"]
     gen_n = max(1, c.get("valid_generated", 0))
     guards = [("valid bodies generated", c.get("valid_generated", 0), 600 if not th else 8000),
+              ("invalid bodies sent by POST add-member", c.get("invalid_posted", 0), 100), ("of which refused", c.get("invalid_post_refused", 0), 80),
               ("invalid bodies whose bytes were stored before under an unvalidated type", c.get("primed_plain_stored", 0) + c.get("primed_other_stored", 0), 60),
               ("share of valid bodies accepted (percent)", 100 * c.get("valid_accepted", 0) // gen_n, 90),
               ("fixed-point checks", c.get("fixed_point_checks", 0), 500 if not th else 7000),
